@@ -3,6 +3,23 @@
 //! exit 3 = the violation reproduces (details on stdout), exit 2 = usage / setup error.
 use std::panic::{catch_unwind, AssertUnwindSafe};
 
+/// like `parse`, but prints the parsed command (Debug) so that a replay can see which values it carries
+fn parse_debug_case(input: &str) -> i32 {
+    let inp = input.to_string();
+    let r = catch_unwind(AssertUnwindSafe(|| {
+        snel_db::command::parser::command::parse_command(&inp).map(|c| format!("{c:?}")).map_err(|e| format!("{e:?}"))
+    }));
+    match r {
+        Ok(Ok(c)) => println!("Ok({c})"),
+        Ok(Err(e)) => println!("Err({e})"),
+        Err(_) => {
+            println!("PANICKED");
+            return 3;
+        }
+    }
+    0
+}
+
 fn parse_case(input: &str) -> i32 {
     let inp = input.to_string();
     let r = catch_unwind(AssertUnwindSafe(|| {
@@ -422,6 +439,7 @@ fn main() {
     let args: Vec<String> = std::env::args().collect();
     let code = match args.get(1).map(|s| s.as_str()) {
         Some("parse") if args.len() >= 3 => parse_case(&args[2]),
+        Some("parsedbg") if args.len() >= 3 => parse_debug_case(&args[2]),
         Some("triecheck") => triecheck(),
         Some("aggu64") if args.len() >= 3 => agg_u64(args[2].parse().unwrap()),
         Some("calendar") if args.len() >= 6 => calendar_case(args[2].parse().unwrap(), args[3].parse().unwrap(), &args[4], args[5].parse().unwrap()),
